@@ -372,7 +372,9 @@ def check_case(ctx, case, st=None):
             ok = "AttributeError: %s" % e
         if ok is not True:
             ctx.fail("match-api", "hw.match(<true sequence>) is not True", dict(cb, family=".".join(s)), True, ok)
-    for s in list(false_seqs)[:40]:
+    for s in sorted(false_seqs):
+        if any(s[:k] not in true_set and s[:k] not in false_seqs for k in range(1, len(s))):
+            continue    # a short name under an ambiguous (hence unknown) name: see short-name-not-prefix-closed
         try:
             ok = hw.match(".".join(s))
         except AttributeError as e:
